@@ -46,6 +46,22 @@ pub struct InlineCallback {
     pub span: Span,
 }
 
+impl InlineCallback {
+    /// `return` and `?` in the body of an inline callback have to leave the callback, not the
+    /// generated function its body is pasted into.
+    pub fn leaves_early(&self) -> bool {
+        fn scan(tokens: TokenStream) -> bool {
+            tokens.into_iter().any(|tt| match tt {
+                proc_macro2::TokenTree::Ident(ident) => ident == "return",
+                proc_macro2::TokenTree::Punct(punct) => punct.as_char() == '?',
+                proc_macro2::TokenTree::Group(group) => scan(group.stream()),
+                proc_macro2::TokenTree::Literal(_) => false,
+            })
+        }
+        scan(self.body.clone())
+    }
+}
+
 impl From<InlineCallback> for Callback {
     fn from(inline: InlineCallback) -> Callback {
         Callback::Inline(inline)
